@@ -1,5 +1,5 @@
 ------------------------------ MODULE MC_Pool ------------------------------
 EXTENDS Pool, Json
-Pal == {"geo", "har", "abortdeep", "path200", "truncjson", "scalar", "empty", "csvabort", "csvok", "huge", "ndjson", "binary", "readerr", "lim0", "limD", "plain", "blanklines", "wsjson", "csvtsvabort", "onerec"}
+Pal == {"geo", "har", "abortdeep", "path200", "truncjson", "scalar", "empty", "csvabort", "csvok", "huge", "ndjson", "binary", "readerr", "lim0", "limD", "plain", "blanklines", "wsjson", "csvtsvabort", "onerec", "lim64", "rdtail", "rdgeo"}
 Dump == Len(hist) = MaxCalls => PrintT(ToJson([h |-> hist]))
 =============================================================================
